@@ -238,6 +238,19 @@ def run(tier, seed):
         if any(verdicts):
             ck.violation('range-limit', 'a transaction with outputs %s passes transaction validation on presentation #%d'
                          % (v, verdicts.index(True) + 1), {'kind': 'range', 'value': v, 'presentations': verdicts})
+    # ... and the limit IS the documented maximum, for a total as for a single amount: a transaction whose outputs add up to
+    # exactly the maximum is within it
+    for v in ((DOC_MAX,), (DOC_MAX - 1, 1), (1, DOC_MAX - 1), (DOC_MAX // 2, DOC_MAX - DOC_MAX // 2), (1,), (1, 1)):
+        t = at_limit_tx(v)
+        try:
+            consensus.validate_non_coinbase_transaction_by_itself(t)
+            okv = True
+        except Exception:
+            okv = False
+        ck.case(('tx-range-at-limit', v), kind='tx-range')
+        if not okv:
+            ck.violation('range-limit', 'a transaction with outputs %s (total %d, within the documented maximum %d) is refused by '
+                         'transaction validation' % (v, sum(v), DOC_MAX), {'kind': 'range-total', 'values': list(v)})
     # the schedule is a function of the height alone, also when two threads (miner, validator) ask at the same time for
     # heights on both sides of a halving: interpreter switch interval forced down, every answer compared
     import sys
@@ -289,6 +302,15 @@ def run(tier, seed):
     return ck.finish()
 
 
+def at_limit_tx(values):
+    """a transaction with one ordinary input (no defect visible to stand-alone validation) and the given output amounts"""
+    import random
+    import gen
+    from skepticoin.datatypes import Input, Output, OutputReference, Transaction
+    r = random.Random(7)
+    return Transaction([Input(OutputReference(b'\x11' * 32, 0), gen.g_sig(r, 2))], [Output(x_, gen.g_pk(r)) for x_ in values])
+
+
 def replay(path):
     d = json.load(open(path))
     rp = d.get('replay', {})
@@ -306,5 +328,17 @@ def replay(path):
         v = consensus_check.replay_case(rp)
         print('block at height %d (%s) -> implementation verdict %s (1 = accepted)' % (rp['height'], rp['label'], v))
         return 1 if (v[0] == 1) != rp['label'].startswith('control') else 0
+    if rp.get('kind') == 'range-total':
+        import random
+        import gen
+        from skepticoin.datatypes import Output
+        t = at_limit_tx(rp['values'])
+        try:
+            consensus.validate_non_coinbase_transaction_by_itself(t)
+            print('outputs', rp['values'], 'accepted')
+            return 0
+        except Exception as e:
+            print('outputs', rp['values'], 'refused: %r' % (e,))
+            return 1
     print(json.dumps(d, indent=1))
     return 1
